@@ -106,3 +106,5 @@ Definition val_ltb (a b : val) : bool := Z.ltb (as_int a) (as_int b).
 
 (* Sum (Add on ints). *)
 Definition val_add (a b : val) : val := VInt (as_int a + as_int b).
+
+Fixpoint seqZ (a : Z) (n : nat) : list Z := match n with O => [] | S k => a :: seqZ (a + 1)%Z k end.
